@@ -33,6 +33,10 @@
 EXTENDS Integers, Sequences, FiniteSets
 
 CONSTANTS R, Slack,
+          Fixed,      \* FALSE: assign_thunk_blocks as it is.  TRUE: with the placement rule proposed in
+                      \* findings/C11-large-object-after-caller.md (fixes/C11-*.patch): when the object that
+                      \* crosses the range would put the block R + Slack or more from the first object of
+                      \* the group, the block goes to the end of the previous object instead
           Sizes,      \* candidate object sizes (positive)
           Bases,      \* candidate sizes of the non-primary text before the first object
           MaxObjs
@@ -95,11 +99,32 @@ AssignNext(sz) ==
 PlaceNext(sz) ==
     /\ mode = "next" /\ Feed(sz)
     /\ (NextStart + sz) - pendStart >= R
+    /\ Fixed => (NextStart + sz) - pendStart < R + Slack
     /\ asg' = Append([asg EXCEPT ![pendFirst] = [b |-> pendId, own |-> FALSE]],
                      [b |-> pendId, own |-> TRUE])
     /\ prevBlock' = pendId /\ prevPos' = NextStart + sz
     /\ mode' = "prev"
     /\ UNCHANGED <<pendId, pendFirst, pendStart, nBlocks>>
+
+(* proposed fix only: the crossing object is too long; the block is placed at the end of the previous
+   object (the last one of the group so far, possibly its first), and the current object is then
+   handled in "previous" mode relative to that block *)
+PlaceBack(sz) ==
+    /\ Fixed /\ mode = "next" /\ Feed(sz)
+    /\ (NextStart + sz) - pendStart >= R + Slack
+    /\ LET placed == [[asg EXCEPT ![pendFirst] = [b |-> pendId, own |-> (pendFirst = N)]]
+                         EXCEPT ![N] = [b |-> pendId, own |-> TRUE]]
+           pos == objs[N].e
+       IN  IF (NextStart + sz) - pos >= R
+           THEN /\ asg' = Append(placed, None)
+                /\ pendId' = nBlocks /\ nBlocks' = nBlocks + 1
+                /\ pendFirst' = N + 1 /\ pendStart' = NextStart
+                /\ prevBlock' = pendId /\ prevPos' = pos
+                /\ mode' = "next"
+           ELSE /\ asg' = Append(placed, [b |-> pendId, own |-> FALSE])
+                /\ prevBlock' = pendId /\ prevPos' = pos
+                /\ mode' = "prev"
+                /\ UNCHANGED <<pendId, pendFirst, pendStart, nBlocks>>
 
 (* after the loop: a still pending block is owned by the first object that uses it *)
 Finish ==
@@ -110,7 +135,7 @@ Finish ==
 
 Next ==
     \/ \E base \in Bases, sz \in Sizes : First(base, sz)
-    \/ \E sz \in Sizes : AssignPrev(sz) \/ OpenNext(sz) \/ AssignNext(sz) \/ PlaceNext(sz)
+    \/ \E sz \in Sizes : AssignPrev(sz) \/ OpenNext(sz) \/ AssignNext(sz) \/ PlaceNext(sz) \/ PlaceBack(sz)
     \/ Finish
 
 Spec == Init /\ [][Next]_vars
